@@ -33,7 +33,9 @@ class Local(Backend):
             NamedTemporaryFile(
                 prefix=f'{shortened_name}_',
                 suffix='.tmp',
-                dir=destination.parent,
+                # tempfile makes the directory absolute textually, and that
+                # would take "link/.." for something it is not
+                dir=destination.parent.resolve(),
                 delete=False,
             ).name
         )
